@@ -48,7 +48,7 @@ def main():
         os.makedirs(os.path.join(tmp, "inference"))
         os.makedirs(os.path.join(tmp, "parser"))
         real = os.environ.get("INFOCF_REPO", "/repo")
-        shutil.copy(os.path.join(real, "parser", "CKBParser.py"), os.path.join(tmp, "parser", "CKBParser.py"))
+        shutil.copy(os.path.join(real, "parser", "CKBParser.py"), os.path.join(tmp, "parser", "CKBParser.py"))  # (token constants are read from it)
         with open(os.path.join(tmp, "inference", "zz_toy.py"), "w") as f:
             f.write(TOY)
         os.environ["INFOCF_REPO"] = tmp
